@@ -8,6 +8,8 @@ NOT_YET = {}
 _TB = ("Trusted: Lean kernel + propext/Classical.choice/Quot.sound; hand-written models (checked against the code by the "
        "correspondence engine on every run, not assumed); generators and canonicalisers. ")
 ENGINES = [
+    {"name": "eng", "path": "go/cmd/corr/eng.go", "serves_properties": ["C01", "C02", "C04", "C08", "C09", "C12", "C17"],
+     "kind_free_text": "differential: structured rule sets + requests + API call sequences on the real WAF vs the Lean engine model (profiles per property)"},
     {"name": "body", "path": "go/cmd/corr/body.go", "serves_properties": ["C10"],
      "kind_free_text": "differential: real transaction body writes/reads at limit thresholds vs Lean model"},
     {"name": "tf", "path": "go/cmd/corr/tf.go", "serves_properties": ["C14"],
@@ -17,7 +19,25 @@ ENGINES = [
     {"name": "op", "path": "go/cmd/corr/op.go", "serves_properties": ["C15"],
      "kind_free_text": "differential: Go operator factories/Evaluate vs Lean models (= documented predicates)"},
 ]
+_ENG_NOTE = (_TB + "Operators and transformations are parameters of the engine theorems (proved for every interpretation); "
+             "the driver instantiates them with the C14/C15 models. Regex keys, @rx, body processors, multiphase build are "
+             "outside the engine model.")
 CLAIMED = {
+    "C02": dict(
+        text="Lean 4 theorems over the engine model for every rule set, request and API call sequence of any length: an "
+             "interrupted phase 1-4 evaluates nothing further; with an interruption in place every later non-logging call "
+             "returns exactly it and changes no state; ProcessLogging evaluates logging-phase rules only; DetectionOnly never "
+             "sets the interruption and remembers only the first would-be one; Off evaluates nothing; lastPhase is monotone "
+             "and a request/response phase is evaluated only if not yet reached (at most once). Tied to /repo by the `eng` "
+             "correspondence (profile api: repeated, skipped, out-of-order calls; mode switches by ctl).",
+        note=_ENG_NOTE, ref="6/C02", engine="eng"),
+    "C08": dict(
+        text="Lean 4 theorems over the engine model for every rule list and every operator interpretation: skip:N passes "
+             "over exactly the next N eligible rules; skipAfter resumes right after the first eligible marker; no skip/"
+             "skipAfter/allow:phase survives the phase; nothing is evaluated while allow covers the phase; the logging phase "
+             "still evaluates after a bare allow; allow is not enforced unless the engine is On; an incomplete chain runs no "
+             "disruptive/flow action. Tied to /repo by the `eng` correspondence (profile flow).",
+        note=_ENG_NOTE, ref="6/C08", engine="eng"),
     "C10": dict(
         text="Lean 4 theorems over an executable model of BodyBuffer and the four body entry points, for every byte string, "
              "every chunking, every mix of entry points and every (limit, memLimit, action): representation invariant "
